@@ -365,3 +365,50 @@ func VX_C19_BackendLoss(args []int) {
 	}
 	vxCover("c19.backend-loss")
 }
+
+func init() { vxRegister("VX_C19_RealIPAfterSetID", VX_C19_RealIPAfterSetID) }
+
+// VX_C19_RealIPAfterSetID: the caller's session on the proxy has been given
+// an application id (a login handler or accept plugin called SetID): the real
+// IP added to a forwarded CALL / PUSH is still the caller's network address,
+// added exactly once, and an existing real IP is kept. args: kind(0 CALL, 1 PUSH), realIPPresent(0/1)
+func VX_C19_RealIPAfterSetID(args []int) {
+	kind, present := args[0], args[1]
+	cli := erpc.NewPeer(erpc.PeerConfig{})
+	bconn := newVxConn("proxy:9", "backend:1")
+	bsess, st := cli.ServeConn(bconn)
+	vxAssume(st.OK())
+	var labels []string
+	front := erpc.NewPeer(erpc.PeerConfig{}, NewPlugin(func(l *Label) Forwarder {
+		labels = append(labels, l.SessionID+"|"+l.RealIP)
+		return &vxFwd{bsess}
+	}))
+	fconn := newVxConn("proxy:1", "caller:7")
+	fs, st := front.ServeConn(fconn)
+	vxAssume(st.OK())
+	fs.SetID("user:alice")
+	var settings []socket.MessageSetting
+	if present == 1 {
+		settings = append(settings, socket.WithAddMeta(erpc.MetaRealIP, "9.9.9.9:1"))
+	}
+	mtype := erpc.TypeCall
+	if kind == 1 {
+		mtype = erpc.TypePush
+	}
+	fconn.feed(vxFrame(mtype, 11, "/back/end", []byte("b"), settings...))
+	vxWaitIdle()
+	vxAssert(bconn.nWrites() == 1, "forwarded exactly once to the backend")
+	if bconn.nWrites() != 1 {
+		return
+	}
+	fm, err := vxParse(bconn.writes[0])
+	vxAssert(err == nil && fm.ServiceMethod() == "/back/end", "forwarded frame parses")
+	kv := vxMetaOf(fm)
+	want := "caller:7"
+	if present == 1 {
+		want = "9.9.9.9:1"
+	}
+	vxAssert(vxCountKey(kv, erpc.MetaRealIP) == 1 && vxGet(kv, erpc.MetaRealIP) == want, "the real IP on the forwarded message is the caller's address (or the one already present), whatever id the caller's session carries")
+	vxAssert(len(labels) == 1 && labels[0] == "user:alice|"+want, "the label handed to the forwarder chooser carries the session id and the caller's real IP")
+	vxCover("c19.realip-setid")
+}
